@@ -1,14 +1,194 @@
 import Model.Util
+import Model.Ring
 /-
-  Model/NStep.lean — (stub) executable model; see DESIGN.md.  Core Lean only.
+  Model/NStep.lean — executable model of `agilerl.components.replay_buffer.MultiStepReplayBuffer`
+  together with the 1-step `ReplayBuffer` that `train_off_policy` fills alongside it.  Core Lean only.
+
+  A *row* is one vectorised transition (what one `n_step_memory.add(transition)` call receives):
+  one `Cell` per environment.  Observations, actions and next observations are identifiers (the
+  harness encodes (environment, step) into the real arrays), rewards are exact rationals.
+
+  `_get_n_step_info` works on whole tensors; every tensor operation it performs is elementwise over
+  the environment axis, and the only coupling between environments is `done.bool().any()`.  The model
+  therefore runs the very same loop once per environment (`loop`), with `rowDone` as the break test.
+
+  `fixed = true`  : the code as repaired (a window whose first row is terminal in any environment is
+                    returned as it is) — fixes/C10-first-done.diff.
+  `fixed = false` : the code before the repair (`_get_n_step_info` never looked at `done` of row 0).
 -/
 namespace NStep
 open Util
 
+structure Cell where
+  obs  : Nat
+  act  : Nat
+  rew  : Rat
+  nxt  : Nat
+  done : Bool
+deriving Repr, DecidableEq
+
+instance : Inhabited Cell := ⟨⟨0, 0, 0, 0, false⟩⟩
+
+/-- one vectorised transition: a cell per environment -/
+abbrev Row := List Cell
+
+/-- `done.bool().any()` -/
+def rowDone (r : Row) : Bool := r.any (·.done)
+
+/-- environment `e` of row `i` of a window / stream -/
+def cellAt (w : List Row) (i e : Nat) : Cell := (w.getD i []).getD e default
+
+/-- running values of the loop in `_get_n_step_info`, for one environment:
+    `n_step_reward`, `first_transition[next_obs]`, `first_transition[done]` -/
+structure Acc where
+  rew  : Rat
+  nxt  : Nat
+  done : Bool
+deriving Repr, DecidableEq
+
+/-- `for i, transition in enumerate(list(self.n_step_buffer)[1:])` seen from environment `e`:
+    add `reward * gamma ** (i + 1)`, overwrite next_obs and done, `break` if `done.any()`.
+    The first `Nat` is the loop counter `i`. -/
+def loop (γ : Rat) (e : Nat) : Nat → Acc → List Row → Acc
+  | _, acc, [] => acc
+  | i, acc, r :: rest =>
+    let c := r.getD e default
+    let acc' : Acc := { rew := acc.rew + c.rew * γ ^ (i + 1), nxt := c.nxt, done := c.done }
+    if rowDone r then acc' else loop γ e (i + 1) acc' rest
+
+/-- `_get_n_step_info` for environment `e` of the window `w` (oldest row first) -/
+def fuseAt (fixed : Bool) (γ : Rat) (w : List Row) (e : Nat) : Cell :=
+  match w with
+  | [] => default
+  | r0 :: rest =>
+    let c0 := r0.getD e default                       -- first_transition = window[0].clone()
+    let a0 : Acc := { rew := c0.rew, nxt := c0.nxt, done := c0.done }
+    let a := if fixed && rowDone r0 then a0 else loop γ e 0 a0 rest
+    { obs := c0.obs, act := c0.act, rew := a.rew, nxt := a.nxt, done := a.done }
+
+/-- the fused vectorised transition that is written to the n-step storage -/
+def fuseRow (fixed : Bool) (γ : Rat) (w : List Row) : Row :=
+  (List.range (w.headD []).length).map (fuseAt fixed γ w)
+
+/-- number of rows a window contributes: up to and including the first row with `done.any()` -/
+def cutLen : List Row → Nat
+  | [] => 0
+  | r :: rest => if rowDone r then 1 else 1 + cutLen rest
+
+/-- `deque(maxlen = n).append(r)` -/
+def push (n : Nat) (w : List Row) (r : Row) : List Row :=
+  let l := w ++ [r]
+  l.drop (l.length - n)
+
+/-- n-step buffer + the 1-step buffer of `train_off_policy`.  `nRows`/`oRows` log every record
+    ever handed to the two storages (k-th emission = k-th element); the ring buffers hold the flat
+    index of a record (emission k, environment e ↦ position in `nRows.flatten`). -/
+structure State where
+  n      : Nat
+  γ      : Rat
+  fixed  : Bool
+  window : List Row
+  nRows  : List Row
+  oRows  : List Row
+  nbuf   : Ring.Buf
+  obuf   : Ring.Buf
+deriving Repr
+
+def State.init (n : Nat) (γ : Rat) (fixed : Bool) (capN capO : Nat) : State :=
+  { n := n, γ := γ, fixed := fixed, window := [], nRows := [], oRows := [],
+    nbuf := Ring.Buf.empty capN, obuf := Ring.Buf.empty capO }
+
+/-- one iteration of the storing part of `train_off_policy`:
+    `one = n_step_memory.add(transition); if one is not None: memory.add(one)` -/
+def State.add (s : State) (r : Row) : State :=
+  let w := push s.n s.window r
+  if w.length < s.n then { s with window := w }              -- `return` (None)
+  else
+    let fused := fuseRow s.fixed s.γ w                        -- `_get_n_step_info()`
+    let one := w.headD []                                     -- `return self.n_step_buffer[0]`
+    { s with window := w, nRows := s.nRows ++ [fused], oRows := s.oRows ++ [one],
+             nbuf := s.nbuf.add (List.range' s.nbuf.counter fused.length),
+             obuf := s.obuf.add (List.range' s.obuf.counter one.length) }
+
+/-- the state reached from empty buffers by a whole stream of vectorised transitions -/
+def run (n : Nat) (γ : Rat) (fixed : Bool) (capN capO : Nat) (rows : List Row) : State :=
+  rows.foldl State.add (State.init n γ fixed capN capO)
+
+/-- record held in slot `j` of the n-step storage / the 1-step storage -/
+def State.nSlot (s : State) (j : Nat) : Option Cell :=
+  match s.nbuf.store.getD j none with
+  | some i => s.nRows.flatten[i]?
+  | none => none
+
+def State.oSlot (s : State) (j : Nat) : Option Cell :=
+  match s.obuf.store.getD j none with
+  | some i => s.oRows.flatten[i]?
+  | none => none
+
+end NStep
+
+/-! ### line protocol -/
+namespace NStep
+open Util
+
 structure IOState where
-  dummy : Nat := 0
+  st : Option State := none
+  m  : Nat := 0
+
+def showCell (c : Cell) : String :=
+  toString c.obs ++ "," ++ toString c.act ++ "," ++ showRat c.rew ++ "," ++ toString c.nxt ++ ","
+    ++ showBool c.done
+
+def showRow (r : Row) : String := " ".intercalate (r.map showCell)
+
+def showSlot : Option Cell → String
+  | none => "_"
+  | some c => showCell c
+
+def parseBool? : String → Option Bool
+  | "0" => some false
+  | "1" => some true
+  | _ => none
+
+def parseCell? : List String → Option Cell
+  | [o, a, r, x, d] =>
+    match parseNat? o, parseNat? a, parseRat? r, parseNat? x, parseBool? d with
+    | some o, some a, some r, some x, some d => some ⟨o, a, r, x, d⟩
+    | _, _, _, _, _ => none
+  | _ => none
 
 def step (s : IOState) : List String → IOState × String
+  | ["new", n, g, m, cn, co, f] =>
+    match parseNat? n, parseRat? g, parseNat? m, parseNat? cn, parseNat? co, parseBool? f with
+    | some n, some g, some m, some cn, some co, some f =>
+      -- n = 0 (IndexError on the empty deque), empty batches and batches wider than the storage
+      -- are rejected by the real code
+      if n = 0 ∨ m = 0 ∨ cn = 0 ∨ co = 0 ∨ m > cn ∨ m > co then (s, "reject")
+      else ({ st := some (State.init n g f cn co), m := m }, "ok")
+    | _, _, _, _, _, _ => (s, "bad-op")
+  | "add" :: ws =>
+    match s.st with
+    | none => (s, "bad-op")
+    | some st =>
+      if ws.length ≠ 5 * s.m then (s, "reject") else
+      match allSome ((chunks 5 ws).map parseCell?) with
+      | none => (s, "bad-op")
+      | some row =>
+        let st' := st.add row
+        let out :=
+          if st'.nRows.length = st.nRows.length then "-"
+          else showRow (st'.nRows.getLastD []) ++ " | " ++ showRow (st'.oRows.getLastD [])
+        ({ s with st := some st' }, out)
+  | ["len"] =>
+    match s.st with
+    | none => (s, "bad-op")
+    | some st => (s, toString st.nbuf.size ++ " " ++ toString st.obuf.size ++ " " ++ toString st.window.length)
+  | ["dump"] =>
+    match s.st with
+    | none => (s, "bad-op")
+    | some st =>
+      (s, " ".intercalate ((List.range st.nbuf.size).map (fun j => showSlot (st.nSlot j))) ++ " | " ++
+          " ".intercalate ((List.range st.obuf.size).map (fun j => showSlot (st.oSlot j))))
   | _ => (s, "bad-op")
 
 end NStep
